@@ -264,11 +264,15 @@ def classify(check, info, case):
             return "polygon.union-treats-footprint-as-flat-polygon"
         if "polyline" in kinds and kinds & {"polygon", "circle", "sector", "rect"}:
             return "polygon.union-drops-polyline-operand"
+    if check == "containsRegion.error" and "'MeshSurfaceRegion' object has no attribute '_shape'" in err:
+        return "meshsurface.boundingPolygon-reads-undefined-_shape"
+    if check.startswith("result.") and rc == "PointSetRegion" and op == "and" and "grid" in (ka, kb) and {ka, kb} <= {"grid", "pointset"}:
+        return "grid.cell-membership-inconsistent-with-pointset-measure"
     if check == "containsRegion.error" and "VoxelRegion.containsRegionInner() takes 2 positional arguments" in err:
         return "voxel.containsRegionInner-missing-tolerance-parameter"
     if check == "result.sample-error" and "ZeroDivisionError" in err and rc == "UnionRegion" and "polyline" in (ka, kb):
         return "union.genericSampler-zero-containment-count-for-polyline-sample"
-    if check == "result.sample-error" and "setting an array element with a sequence" in err and "meshsurf" in (ka, kb) and info.get("label", "").startswith("[random"):
+    if check == "result.sample-error" and "setting an array element with a sequence" in err and "meshsurf" in (ka, kb) and info.get("label", "").startswith(("[random", "[delayed")):
         return "meshsurface.random-parameter-default-orientation-leaks-into-composite"
     if info.get("alt_key"):
         return info["alt_key"]
@@ -980,7 +984,11 @@ def check_case(case, C, S):
         which = "A" if rng.random() < 0.5 else "B"
         X, SXr, mX, fX = (A, SA, mA, fA) if which == "A" else (B, SB, mB, fB)
         R1 = results[op1]
-        if _rclass(R1) not in ("EmptyRegion", "AllRegion"):
+        if _rclass(R1) in ("PolylineRegion", "PathRegion") and X.kind in ("polyline", "path"):
+            # a clipped curve combined again with the curve it was cut from: coincident collinear segments, whose
+            # overlap no floating-point geometry kernel can decide -- not a meaningful input
+            mon.skip("nested_coincident_curves")
+        elif _rclass(R1) not in ("EmptyRegion", "AllRegion"):
             k, R2 = outcome(getattr(R1, OPNAME[op2]), SXr)
             if k == "unsupported":
                 mon.bump("nested_op_not_accepted")
